@@ -128,10 +128,17 @@ func VerifHarness_C14_admin_request() {
 	nsig := vNondetLen("nsig", 0, maxSig)
 	sinfos := make([]agtypes.SigInfo, nsig)
 	signed := make([]bool, n+1) // distinct validators with a valid signature in the list
+	// the raw key bytes of a list entry may carry trailing garbage (only the first 32 bytes make the
+	// key): the j-th entry gets j extra bytes, so entries naming the same validator differ as byte strings
+	padded := vNondetBool("sig.padded-keys")
 	for j := 0; j < nsig; j++ {
 		who := vNondetLen("sig.who", 0, n)
 		ok := vNondetBool("sig.valid")
-		sinfos[j] = agtypes.SigInfo{PubKey: keys[who].pub, Signature: keys[who].sign(msg, ok)}
+		raw := keys[who].pub
+		if padded {
+			raw = append(append([]byte{}, raw...), []byte{0x00, 0x01, 0x02, 0x03}[:j]...)
+		}
+		sinfos[j] = agtypes.SigInfo{PubKey: raw, Signature: keys[who].sign(msg, ok)}
 		signed[who] = vOr(signed[who], ok)
 	}
 	goodType := vNondetBool("goodtype")
